@@ -17,7 +17,7 @@ const (
 
 var c06Names = []string{"resetsFlags", "metaCompare", "tsPositive", "voidClears", "pushChecksType", "setSliceReplaces",
 	"u32delReleases", "u32delChecksType", "incFailClean", "noEmptyLive", "arekAllFalse", "countMissingOk",
-	"setErrSingle", "saveReleasesImmediate"}
+	"setErrSingle", "saveReleasesImmediate", "wireExpNe0"}
 
 func init() {
 	Register("C06", Extractor{Import: "Hv.Props.C06", Type: "Hv.C06.Facts", Run: func(fs *Facts) {
@@ -522,6 +522,25 @@ func c06All(gw, sw, tr *File) map[string]c06Fact {
 			}
 		}
 		out["setErrSingle"] = fact
+	}
+
+	// ---- wireExpNe0: treasureToKeyValuePair shows ExpiredAt when `!= 0` (yes) / `> 0` (no) ---------------
+	{
+		fact := unk(gw)
+		if fd := gw.Func("", "treasureToKeyValuePair"); fd != nil {
+			ast.Inspect(fd.Body, func(n ast.Node) bool {
+				if is, ok := n.(*ast.IfStmt); ok && gw.Contains(is.Body, "t.ExpiredAt =") {
+					switch gw.Str(is.Cond) {
+					case "treasureInterface.GetExpirationTime() > 0":
+						fact = c06Fact{No, c06At(gw, is)}
+					case "treasureInterface.GetExpirationTime() != 0":
+						fact = c06Fact{Yes, c06At(gw, is)}
+					}
+				}
+				return true
+			})
+		}
+		out["wireExpNe0"] = fact
 	}
 
 	// ---- saveReleasesImmediate: SaveFunction lets go of the guard when the write interval is 0 --------
